@@ -3,6 +3,7 @@ import RV.C03.NumLemmas
 import RV.C03.ListLemmas
 import RV.C03.LayoutLemmas
 import RV.C03.PreLemmas
+import RV.C03.NTLineLemmas
 /-
   C03 — property theorems: "serialise then parse gives back the same RDF graph".
 
@@ -24,6 +25,13 @@ def Statement_nt_lit_roundtrip : Prop :=
     string — including strings ending in `"` or `\`, containing `"""`, `\r`, and mixes of these. -/
 def Statement_turtle_str_roundtrip : Prop :=
   ∀ s : Str, decodeTurtle (quoteEncode s) = some s
+
+/-- A whole N-Triples line: for every subject (IRI / plain blank-node label), predicate IRI and object (IRI, blank
+    node, or literal with ANY lexical form and a well-formed datatype IRI or language tag) the line `_nt_row`
+    writes is a `triple` of the W3C N-Triples grammar that reads back as the same three terms. -/
+def Statement_nt_line_roundtrip : Prop :=
+  ∀ (s : NTerm) (p : Str) (o : NTerm), NodeWf s → IriWf p → ObjWf o →
+    parseLine (ntRow s (.iri p) o) = some (s, .iri p, o)
 
 /-! ### Statements — numeric / boolean shorthand -/
 
@@ -79,6 +87,8 @@ theorem turtle_str_roundtrip : Statement_turtle_str_roundtrip := by
   by_cases h : lf ∈ s
   · exact turtle_long_roundtrip s h
   · exact turtle_short_roundtrip s h
+
+theorem nt_line_roundtrip : Statement_nt_line_roundtrip := fun s p o hs hp ho => nt_line_roundtrip' s p o hs hp ho
 
 theorem shorthand_relex : Statement_shorthand_relex := fun _ _ h => tokenOk_relex h
 
